@@ -95,12 +95,20 @@ type params struct {
 	stopAt int    // Client.Stop() is issued once this many messages have been handled
 	slow   int    // index of the callback that blocks on the harness gate (-1 none)
 	strict string // name of a dedicated stop scenario group: errors caused by Stop are findings here
+	slot0  bool   // tips, rollback points and the intersect point sit at slot 0 WITH a hash (start of the chain)
+	lib    bool   // the server is the library's chainsync.Server driven through its API, not the raw peer
 }
 
 func (p params) name() string {
 	s := fmt.Sprintf("%s|L%d|%s|%s|stop%d", p.mode, p.limit, p.script, p.policy, p.stopAt)
 	if p.slow >= 0 {
 		s += fmt.Sprintf("|slow%d", p.slow)
+	}
+	if p.slot0 {
+		s += "|slot0"
+	}
+	if p.lib {
+		s = "libsrv|" + s
 	}
 	if p.strict != "" {
 		s = p.strict + "|" + s
@@ -115,29 +123,59 @@ func effLimit(l int) int {
 	return l
 }
 
-func tipNode(i int) *space.Node {
+// tipVals / rbVals / isectVals are the values the server is told to send. With zero they sit
+// at slot 0 WITH a hash (the first block of a chain; block number 0 for the first message):
+// only the true origin may be encoded as the empty list.
+func tipVals(i int, zero bool) (slot uint64, hash []byte, blockNo uint64) {
+	hash = make([]byte, 32)
+	binary.BigEndian.PutUint32(hash, uint32(0xA0000000+i))
+	if zero {
+		return 0, hash, uint64(i)
+	}
+	return uint64(1000 + i), hash, uint64(100 + i)
+}
+
+func rbVals(i int, zero bool) (uint64, []byte) {
 	h := make([]byte, 32)
-	binary.BigEndian.PutUint32(h, uint32(0xA0000000+i))
-	return space.A(space.A(space.U(uint64(1000+i)), space.B(h)), space.U(uint64(100+i)))
+	binary.BigEndian.PutUint32(h, uint32(0xB0000000+i))
+	if zero {
+		return 0, h
+	}
+	return uint64(500 + i), h
+}
+
+// isectVals: the point the application syncs from (nil hash = origin).
+func isectVals(zero bool) (uint64, []byte) {
+	if !zero {
+		return 0, nil
+	}
+	h := make([]byte, 32)
+	binary.BigEndian.PutUint32(h, 0xC0000000)
+	return 0, h
+}
+
+func pointStr(slot uint64, hash []byte) string {
+	if slot == 0 && len(hash) == 0 {
+		return "origin"
+	}
+	return fmt.Sprintf("%d/%x", slot, hash)
+}
+
+func tipNode(i int, zero bool) *space.Node {
+	s, h, n := tipVals(i, zero)
+	return space.A(space.A(space.U(s), space.B(h)), space.U(n))
 }
 
 func tipStr(slot, blockNo uint64, hash []byte) string {
 	return fmt.Sprintf("tip=%d/%d/%x", slot, blockNo, hash)
 }
 
-func wantTip(i int) string {
-	h := make([]byte, 32)
-	binary.BigEndian.PutUint32(h, uint32(0xA0000000+i))
-	return tipStr(uint64(1000+i), uint64(100+i), h)
+func wantTip(i int, zero bool) string {
+	s, h, n := tipVals(i, zero)
+	return tipStr(s, n, h)
 }
 
-func rbPoint(i int) (uint64, []byte) {
-	h := make([]byte, 32)
-	binary.BigEndian.PutUint32(h, uint32(0xB0000000+i))
-	return uint64(500 + i), h
-}
-
-func rollForward(m mode, i int) []byte {
+func rollForward(m mode, i int, zero bool) []byte {
 	b := blocks[i%2]
 	if m == ntn {
 		var wrapped *space.Node
@@ -146,28 +184,37 @@ func rollForward(m mode, i int) []byte {
 		} else {
 			wrapped = space.A(space.U(b.era), space.Tag(24, space.B(b.header)))
 		}
-		return space.A(space.U(2), wrapped, tipNode(i)).Encode()
+		return space.A(space.U(2), wrapped, tipNode(i, zero)).Encode()
 	}
 	inner := space.A(space.U(b.typ), space.Raw(b.cbor)).Encode()
-	return space.A(space.U(2), space.Tag(24, space.B(inner)), tipNode(i)).Encode()
+	return space.A(space.U(2), space.Tag(24, space.B(inner)), tipNode(i, zero)).Encode()
 }
 
-func rollBackward(i int) []byte {
-	s, h := rbPoint(i)
-	return space.A(space.U(3), space.A(space.U(s), space.B(h)), tipNode(i)).Encode()
+func rollBackward(i int, zero bool) []byte {
+	s, h := rbVals(i, zero)
+	return space.A(space.U(3), space.A(space.U(s), space.B(h)), tipNode(i, zero)).Encode()
 }
 
 // expected is the callback sequence the specification demands for a script.
-func expected(m mode, script string) []string {
+// blockFor: the block of step i. The library server's NtN RollForward only knows the
+// post-Byron eras (BlockToBlockHeaderTypeMap), so it always serves the Shelley block there.
+func blockFor(p params, i int) block {
+	if p.lib && p.mode == ntn {
+		return blocks[1]
+	}
+	return blocks[i%2]
+}
+
+func expected(p params) []string {
 	var out []string
-	for i, c := range script {
+	for i, c := range p.script {
 		switch c {
 		case 'F', 'A':
-			b := blocks[i%2]
-			out = append(out, fmt.Sprintf("RF type=%d hash=%s %s", b.typ, b.hash, wantTip(i)))
+			b := blockFor(p, i)
+			out = append(out, fmt.Sprintf("RF type=%d hash=%s %s", b.typ, b.hash, wantTip(i, p.slot0)))
 		case 'B':
-			s, h := rbPoint(i)
-			out = append(out, fmt.Sprintf("RB point=%d/%x %s", s, h, wantTip(i)))
+			s, h := rbVals(i, p.slot0)
+			out = append(out, fmt.Sprintf("RB point=%d/%x %s", s, h, wantTip(i, p.slot0)))
 		}
 	}
 	return out
@@ -292,119 +339,204 @@ func body(p params) func() {
 			Mode: pmode, Role: protocol.ProtocolRoleClient, Version: 14}, &cfg)
 		cDown, cDone := owner("cli", cerrs, cmux)
 
-		// --- the scripted server: a reader that parses the client's messages and hands one
-		// token per RequestNext to a writer that plays the script
-		tokens := make(chan struct{}, 512)
 		rdDone, wrDone := make(chan struct{}), make(chan struct{})
-		send := func(msg []byte) bool {
-			seg := make([]byte, 8+len(msg))
-			binary.BigEndian.PutUint32(seg, 1)
-			binary.BigEndian.PutUint16(seg[4:], protoID|0x8000)
-			binary.BigEndian.PutUint16(seg[6:], uint16(len(msg)))
-			copy(seg[8:], msg)
-			_, err := peer.Write(seg)
-			return err == nil
-		}
-		rt.Go("rawsrv reader", func() {
-			defer rt.Close("h:rdDone", rdDone)
-			defer rt.Close("h:noMoreTokens", tokens)
-			var stream []byte
-			hdr := make([]byte, 8)
-			for {
-				if _, err := io.ReadFull(peer, hdr); err != nil {
-					return
-				}
-				pl := make([]byte, int(binary.BigEndian.Uint16(hdr[6:])))
-				if _, err := io.ReadFull(peer, pl); err != nil {
-					return
-				}
-				if id := binary.BigEndian.Uint16(hdr[4:]); id != protoID {
-					rt.Log("C>S foreign-protocol %d", id)
-				}
-				stream = append(stream, pl...)
-				for len(stream) > 0 {
-					n, used, err := space.ParsePrefix(stream)
-					if err != nil {
-						break
+		var smux *muxer.Muxer
+		var sDone chan struct{}
+		if p.lib {
+			// --- the library server driven through its API, as an application would
+			rt.Close("h:rdDone", rdDone)
+			rt.Close("h:wrDone", wrDone)
+			step := 0
+			var srv *chainsync.Server
+			scfg := chainsync.NewConfig(
+				chainsync.WithFindIntersectFunc(func(_ chainsync.CallbackContext, pts []pcommon.Point) (pcommon.Point, chainsync.Tip, error) {
+					var ps []string
+					for _, pt := range pts {
+						ps = append(ps, pointStr(pt.Slot, pt.Hash))
 					}
-					stream = stream[used:]
-					typ := uint64(99)
-					if n.IsArray() && len(n.Items) > 0 && n.Items[0].Major == 0 {
-						typ = n.Items[0].Arg
+					rt.Log("C>S FindIntersect %s", strings.Join(ps, ","))
+					rt.Log("S>C IntersectFound")
+					is, ih := isectVals(p.slot0)
+					ts, th, tn := tipVals(900, p.slot0)
+					return pcommon.Point{Slot: is, Hash: ih}, chainsync.Tip{Point: pcommon.Point{Slot: ts, Hash: th}, BlockNumber: tn}, nil
+				}),
+				chainsync.WithRequestNextFunc(func(chainsync.CallbackContext) error {
+					rt.Log("C>S RequestNext")
+					if step >= nSteps {
+						return nil // at the tip, nothing to say yet
 					}
-					switch typ {
-					case 4:
-						rt.Log("C>S FindIntersect")
-						rt.Log("S>C IntersectFound")
-						if !send(space.A(space.U(5), space.A(), tipNode(900)).Encode()) {
-							return
+					i := step
+					step++
+					ts, th, tn := tipVals(i, p.slot0)
+					tip := chainsync.Tip{Point: pcommon.Point{Slot: ts, Hash: th}, BlockNumber: tn}
+					b := blockFor(p, i)
+					switch p.script[i] {
+					case 'B':
+						rs, rh := rbVals(i, p.slot0)
+						rt.Log("S>C reply RB %d", i)
+						return srv.RollBackward(pcommon.Point{Slot: rs, Hash: rh}, tip)
+					case 'A':
+						rt.Log("S>C AwaitReply %d", i)
+						if err := srv.AwaitReply(); err != nil {
+							return err
 						}
-					case 0:
-						rt.Log("C>S RequestNext")
-						rt.Send("h:token", tokens, struct{}{})
-					case 7:
-						rt.Log("C>S Done")
-					default:
-						rt.Log("C>S other %x", n.Encode())
+						rt.Go("next block", func() {
+							vtime.Sleep(time.Second)
+							rt.Log("S>C reply RF %d", i)
+							if err := srv.RollForward(uint(b.typ), b.cbor, tip); err != nil {
+								rt.Log("srv api error %s", errStr(err))
+							}
+						})
+						return nil
 					}
-				}
+					rt.Log("S>C reply RF %d", i)
+					return srv.RollForward(uint(b.typ), b.cbor, tip)
+				}),
+			)
+			smux = muxer.New(peer)
+			serrs := make(chan error, 10)
+			srv = chainsync.NewServer(protocol.ProtocolOptions{ConnectionId: connID(peer), Muxer: smux, ErrorChan: serrs,
+				Mode: pmode, Role: protocol.ProtocolRoleServer, Version: 14}, &scfg)
+			_, sDone = owner("srv", serrs, smux)
+			srv.Start()
+			smux.SetDiffusionMode(muxer.DiffusionModeResponder)
+			smux.Start()
+		} else {
+			// --- the scripted server: a reader that parses the client's messages and hands one
+			// token per RequestNext to a writer that plays the script
+			tokens := make(chan struct{}, 512)
+			send := func(msg []byte) bool {
+				seg := make([]byte, 8+len(msg))
+				binary.BigEndian.PutUint32(seg, 1)
+				binary.BigEndian.PutUint16(seg[4:], protoID|0x8000)
+				binary.BigEndian.PutUint16(seg[6:], uint16(len(msg)))
+				copy(seg[8:], msg)
+				_, err := peer.Write(seg)
+				return err == nil
 			}
-		})
-		policy := strings.TrimSuffix(p.policy, "+sched")
-		rt.Go("rawsrv writer", func() {
-			defer rt.Close("h:wrDone", wrDone)
-			i := 0
-			for i < nSteps {
-				if _, ok := rt.Recv2("h:token?", tokens); !ok {
-					return
-				}
-				var out []byte
+			rt.Go("rawsrv reader", func() {
+				defer rt.Close("h:rdDone", rdDone)
+				defer rt.Close("h:noMoreTokens", tokens)
+				var stream []byte
+				hdr := make([]byte, 8)
 				for {
-					if policy == "lazy" {
-						// a slow server: the client gets all the time it wants to react first
-						vtime.Sleep(time.Millisecond)
+					if _, err := io.ReadFull(peer, hdr); err != nil {
+						return
 					}
-					c := p.script[i]
-					if c == 'A' {
-						if len(out) > 0 {
-							if !send(out) {
+					pl := make([]byte, int(binary.BigEndian.Uint16(hdr[6:])))
+					if _, err := io.ReadFull(peer, pl); err != nil {
+						return
+					}
+					if id := binary.BigEndian.Uint16(hdr[4:]); id != protoID {
+						rt.Log("C>S foreign-protocol %d", id)
+					}
+					stream = append(stream, pl...)
+					for len(stream) > 0 {
+						n, used, err := space.ParsePrefix(stream)
+						if err != nil {
+							break
+						}
+						stream = stream[used:]
+						typ := uint64(99)
+						if n.IsArray() && len(n.Items) > 0 && n.Items[0].Major == 0 {
+							typ = n.Items[0].Arg
+						}
+						switch typ {
+						case 4:
+							pts := "?"
+							if len(n.Items) == 2 && n.Items[1].IsArray() {
+								var ps []string
+								for _, pt := range n.Items[1].Items {
+									switch {
+									case pt.IsArray() && len(pt.Items) == 0:
+										ps = append(ps, "origin")
+									case pt.IsArray() && len(pt.Items) == 2 && pt.Items[0].Major == 0 && pt.Items[1].Major == 2:
+										ps = append(ps, fmt.Sprintf("%d/%x", pt.Items[0].Arg, pt.Items[1].Bytes))
+									default:
+										ps = append(ps, fmt.Sprintf("malformed:%x", pt.Encode()))
+									}
+								}
+								pts = strings.Join(ps, ",")
+							}
+							rt.Log("C>S FindIntersect %s", pts)
+							rt.Log("S>C IntersectFound")
+							is, ih := isectVals(p.slot0)
+							ipt := space.A()
+							if ih != nil {
+								ipt = space.A(space.U(is), space.B(ih))
+							}
+							if !send(space.A(space.U(5), ipt, tipNode(900, p.slot0)).Encode()) {
 								return
 							}
-							out = nil
+						case 0:
+							rt.Log("C>S RequestNext")
+							rt.Send("h:token", tokens, struct{}{})
+						case 7:
+							rt.Log("C>S Done")
+						default:
+							rt.Log("C>S other %x", n.Encode())
 						}
-						rt.Log("S>C AwaitReply %d", i)
-						if !send(space.A(space.U(1)).Encode()) {
-							return
-						}
-						vtime.Sleep(time.Second) // the next block takes a while
-					}
-					if c == 'B' {
-						rt.Log("S>C reply RB %d", i)
-						out = append(out, rollBackward(i)...)
-					} else {
-						rt.Log("S>C reply RF %d", i)
-						out = append(out, rollForward(p.mode, i)...)
-					}
-					i++
-					// burst: answer every request already seen in the same segment
-					if policy != "burst" || i >= nSteps || p.script[i] == 'A' || rt.Len("h:tokens?", tokens) == 0 {
-						break
-					}
-					if _, ok := rt.Recv2("h:token+", tokens); !ok {
-						break
 					}
 				}
-				if !send(out) {
-					return
+			})
+			policy := strings.TrimSuffix(p.policy, "+sched")
+			rt.Go("rawsrv writer", func() {
+				defer rt.Close("h:wrDone", wrDone)
+				i := 0
+				for i < nSteps {
+					if _, ok := rt.Recv2("h:token?", tokens); !ok {
+						return
+					}
+					var out []byte
+					for {
+						if policy == "lazy" {
+							// a slow server: the client gets all the time it wants to react first
+							vtime.Sleep(time.Millisecond)
+						}
+						c := p.script[i]
+						if c == 'A' {
+							if len(out) > 0 {
+								if !send(out) {
+									return
+								}
+								out = nil
+							}
+							rt.Log("S>C AwaitReply %d", i)
+							if !send(space.A(space.U(1)).Encode()) {
+								return
+							}
+							vtime.Sleep(time.Second) // the next block takes a while
+						}
+						if c == 'B' {
+							rt.Log("S>C reply RB %d", i)
+							out = append(out, rollBackward(i, p.slot0)...)
+						} else {
+							rt.Log("S>C reply RF %d", i)
+							out = append(out, rollForward(p.mode, i, p.slot0)...)
+						}
+						i++
+						// burst: answer every request already seen in the same segment
+						if policy != "burst" || i >= nSteps || p.script[i] == 'A' || rt.Len("h:tokens?", tokens) == 0 {
+							break
+						}
+						if _, ok := rt.Recv2("h:token+", tokens); !ok {
+							break
+						}
+					}
+					if !send(out) {
+						return
+					}
 				}
-			}
-		})
+			})
+
+		}
 
 		// --- the application
 		cli.Start()
 		cmux.SetDiffusionMode(muxer.DiffusionModeInitiator)
 		cmux.Start()
-		err := cli.Sync([]pcommon.Point{pcommon.NewPointOrigin()})
+		is, ih := isectVals(p.slot0)
+		err := cli.Sync([]pcommon.Point{{Slot: is, Hash: ih}})
 		rt.Log("sync returned %s", errStr(err))
 		alive := err == nil
 		for n := 0; alive && n < p.stopAt; n++ {
@@ -425,7 +557,12 @@ func body(p params) func() {
 		rt.Log("closing")
 		cmux.Stop()
 		rt.Recv("h:cDone?", cDone)
-		peer.Close()
+		if p.lib {
+			smux.Stop()
+			rt.Recv("h:sDone?", sDone)
+		} else {
+			peer.Close()
+		}
 		rt.Recv("h:rdDone?", rdDone)
 		rt.Recv("h:wrDone?", wrDone)
 		if bp != nil {
@@ -473,7 +610,7 @@ func errClass(l string) string {
 }
 
 func check(p params) func(r *rt.Result) []rt.Finding {
-	want := expected(p.mode, p.script)
+	want := expected(p)
 	lim := effLimit(p.limit)
 	return func(r *rt.Result) []rt.Finding {
 		if f := verdictFinding(r); f != nil {
@@ -515,9 +652,20 @@ func check(p params) func(r *rt.Result) []rt.Finding {
 					add("c21:message-after-done", "the client sent Done twice")
 				}
 				doneSeen = true
-			case l == "C>S FindIntersect":
+			case strings.HasPrefix(l, "C>S FindIntersect"):
 				if doneSeen {
 					add("c21:message-after-done", "the client sent FindIntersect after Done")
+				}
+				if want := "C>S FindIntersect " + pointStr(isectVals(p.slot0)); l != want {
+					add("c21:wrong-intersect-points", fmt.Sprintf("the application asked to sync from %s, the server received %q", pointStr(isectVals(p.slot0)), l))
+				}
+			case strings.HasPrefix(l, "srv api error"):
+				add("c21:server-api-error", l)
+			case strings.HasPrefix(l, "err srv "):
+				// the library server's side of the connection: nothing may go wrong there
+				// before the application stops the client
+				if !stopCalled {
+					add("c21:error-during-sync|"+errClass(l), l)
 				}
 			case strings.HasPrefix(l, "C>S other") || strings.HasPrefix(l, "C>S foreign"):
 				add("c21:unexpected-client-message", l)
@@ -678,6 +826,30 @@ func TestC21(t *testing.T) {
 		// G2c Stop() racing with the sync loop (needs one schedule deviation)
 		add(params{mode: ntn, limit: 1, script: "F", policy: "eager", stopAt: 1, slow: -1, strict: "stoprace"}, 1, 1, b0)
 		add(params{mode: ntc, limit: 2, script: "FF", policy: "eager", stopAt: 1, slow: -1, strict: "stoprace"}, 1, 1, b0)
+		// G6 start of the chain: tips, rollback points and the intersect point at slot 0 WITH a
+		// hash (only the true origin is the empty list); raw server, so the client's decoder
+		// and its own FindIntersect encoding are what is exercised
+		for _, sc := range scripts(maxLen - 1) {
+			for _, m := range []mode{ntn, ntc} {
+				add(params{mode: m, limit: 2, script: sc, policy: "eager", stopAt: len(sc), slow: -1, slot0: true}, 0, 0, b0)
+			}
+		}
+		add(params{mode: ntcPipe, limit: 2, script: "FBF", policy: "eager", stopAt: 3, slow: -1, slot0: true}, 0, 0, b0)
+		// G7 the LIBRARY server (chainsync.Server driven through RollForward / RollBackward /
+		// AwaitReply from its RequestNext callback) feeding the library client: the encoding
+		// side of every message is the library's, with ordinary and with slot-0 tips/points
+		for _, sc := range scripts(maxLen) {
+			for _, m := range []mode{ntn, ntc, ntcPipe} {
+				for _, z := range []bool{false, true} {
+					for _, l := range []int{1, 2, 3} {
+						if l != 2 && (len(sc) > 2 || m == ntcPipe) {
+							continue
+						}
+						add(params{mode: m, limit: l, script: sc, policy: "eager", stopAt: len(sc), slow: -1, slot0: z, lib: true}, 0, 0, b0)
+					}
+				}
+			}
+		}
 		// G5 schedules: all schedules with <= 1 (thorough <= 2) deviations for short scripts
 		// (bound 1 must complete; bound 2 is attempted within the budget and reported)
 		sb, sbudget := 1, 60*time.Second
@@ -710,6 +882,8 @@ func TestC21(t *testing.T) {
 		sched(params{mode: ntn, limit: 2, script: "FF", policy: "eager", stopAt: 2, slow: 0}, sbudget*3/2)
 		sched(params{mode: ntn, limit: 2, script: "FB", policy: "eager", stopAt: 0, slow: 0}, sbudget*3/2)
 		sched(params{mode: ntcPipe, limit: 2, script: "FB", policy: "lazy", stopAt: 1, slow: 1}, sbudget*3/2)
+		sched(params{mode: ntn, limit: 2, script: "FB", policy: "eager", stopAt: 2, slow: -1, slot0: true, lib: true}, sbudget*3/2)
+		sched(params{mode: ntc, limit: 2, script: "BF", policy: "eager", stopAt: 2, slow: -1, slot0: true, lib: true}, sbudget*3/2)
 		// G4 large limits (0 = default 75, and 100): long runs of roll-forwards so that the
 		// window is refilled at least twice; canonical schedule only
 		for _, l := range []int{0, 100} {
